@@ -201,6 +201,13 @@ func (g *G) objSpec() []arg {
 			return []arg{kw("OBJECT"), {`{"type":"Feature","id":"i\"d","geometry":{"type":"Point","coordinates":[1,2,3]},"properties":{}}`, rJSON}}
 		}
 	}
+	if g.chance("polarcircle?", 1, 16) {
+		// a circle Feature whose disc touches a pole (to within 0, 1 cm, 1 m)
+		lat := float64(g.intn("pclat", -179, 179)) / 2
+		lon := float64(g.intn("pclon", -360, 360)) / 2
+		d := polarDeltas[g.intn("pcdelta", 0, len(polarDeltas)-1)]
+		return []arg{kw("OBJECT"), {polarCircle(lat, lon, d), rJSON}}
+	}
 	sp := gen.ObjectSpec(g.t)
 	out := []arg{kw(sp[0])}
 	for _, s := range sp[1:] {
